@@ -249,10 +249,14 @@ def evaluate(case, native):
             return True, f'evaluate_activity accepted={accepted} but simulation of the tour after insertion says feasible={post_ok}'
         v = native['evaluate_transport']
         if v and v.get('stopped'):
-            for q in range(leg + 1, len(jobs) + 1):
-                _, _, ok_q, _, _, _ = simulate(case, jobs[:q] + [target] + jobs[q:])
-                if ok_q:
-                    return True, f'violation flagged stopped at leg {leg} although position {q} is feasible'
+            # `stopped` makes the evaluator abandon this leg's other time windows/places and every later leg
+            for q in range(leg, len(jobs) + 1):
+                for tgt, label in ((target, 'the same target'), (case.get('target2'), 'another target (other place / time window)')):
+                    if tgt is None or (q == leg and tgt is target):
+                        continue
+                    _, _, ok_q, _, _, _ = simulate(case, jobs[:q] + [tgt] + jobs[q:])
+                    if ok_q:
+                        return True, f'violation flagged stopped at leg {leg} although position {q} is feasible for {label}'
         return False, 'real evaluation agrees with the simulation'
     if kind == 'estimate_distance' or kind == 'estimate_duration':
         _, _, _, td0, tdur0, _ = simulate(case, jobs)
